@@ -9,7 +9,8 @@
 (*                 mx_auth.dane is asked, MX candidate after MX candidate  *)
 (*                 (PrepareConn starts the TLSA lookup for the MX,         *)
 (*                 CheckConn judges the connection to it).  A round is     *)
-(*                 [chain, hs, lookup, recs, disc]; every round is another *)
+(*                 [chain, hs, lookup, recs, disc, mxl, tll]; every round  *)
+(*                 is another                                               *)
 (*                 MX with its own TLSA RRset and its own certificate      *)
 (*                 chain.                                                   *)
 (*             mode   "seq": PrepareConn, CheckConn per round, in order;   *)
@@ -28,6 +29,15 @@
 (*             lookup outcome of TLSA discovery ("ok": recs is the RRset,  *)
 (*                    "notfound": authenticated denial, "error": SERVFAIL, *)
 (*                    bogus signature, time-out)                           *)
+(*                    "wire": like "ok", but recs is published in a signed *)
+(*                    zone and reaches the code through the real discovery *)
+(*                    (DNS answer -> resolver -> discoverTLSA))            *)
+(*             mxl, tll what the policies applied before mx_auth.dane have *)
+(*                    concluded about the MX record (none/mtasts/dnssec)   *)
+(*                    and the connection (none/encrypted/authenticated):   *)
+(*                    the two level arguments of CheckConn.  Neither Prop  *)
+(*                    nor Rule reads them: the DANE verdict is a function  *)
+(*                    of the TLSA records and the TLS state only.          *)
 (*             disc   [a, tlsa]: for lookup = "disc" the discovery itself   *)
 (*                    is run against a DNS server answering the address    *)
 (*                    query with a (ad/noad/nxdomain/servfail) and the     *)
@@ -113,48 +123,65 @@ Concretise(ms, salt) ==
 ChainIdx(ch) == CHOOSE i \in 1..Len(ChainSeq) : ChainSeq[i] = ch
 
 Rec(raw, mt) == [u |-> raw.u, s |-> raw.s, m |-> raw.m, match |-> mt]
-Row(ch, hs, lk, recs, disc) == [chain |-> ch, hs |-> hs, lookup |-> lk, recs |-> recs, disc |-> disc]
+MxSeq == <<"none", "mtasts", "dnssec">>
+TlSeq == <<"none", "encrypted", "authenticated">>
+(* lv in 0..8 picks the incoming (MX level, TLS level); without a handshake *)
+(* the connection has no TLS level                                          *)
+Row(ch, hs, lk, recs, disc, lv) ==
+  [chain |-> ch, hs |-> hs, lookup |-> lk, recs |-> recs, disc |-> disc,
+   mxl |-> MxSeq[(lv % 3) + 1], tll |-> IF hs THEN TlSeq[((lv \div 3) % 3) + 1] ELSE "none"]
+Wire == {"ok", "wire"}
 
 H1(r) == [mode |-> "seq", rounds |-> <<r>>]      \* a fresh delivery object asked about one MX
 
 (* written as predicates on `in` so that TLC enumerates the rows one by one *)
 InMulti ==
-  \/ \E ms \in MS, ch \in Chains, salt \in Salts :
-       in = H1(Row(ch, TRUE, "ok", Concretise(ms, salt + 3 * ChainIdx(ch)), NoDisc))
-  \/ \E ms \in MS, salt \in Salts :
-       in = H1(Row("leaf_int", FALSE, "ok", Concretise(ms, salt), NoDisc))
+  \/ \E ms \in MS, ch \in Chains, salt \in Salts, lk \in Wire :
+       in = H1(Row(ch, TRUE, lk, Concretise(ms, salt + 3 * ChainIdx(ch)), NoDisc,
+                   (SumW(ms, 1) + salt + ChainIdx(ch)) % 9))
+  \/ \E ms \in MS, salt \in Salts, lk \in Wire :
+       in = H1(Row("leaf_int", FALSE, lk, Concretise(ms, salt), NoDisc, (SumW(ms, 1) + salt) % 9))
 
 InSingle ==
-  \/ \E i \in DOMAIN AllRaw, mt \in Matches, ch \in Chains :
-       in = H1(Row(ch, TRUE, "ok", <<Rec(AllRaw[i], mt)>>, NoDisc))
-  \/ \E i \in DOMAIN AllRaw, mt \in Matches :
-       in = H1(Row("leaf_int", FALSE, "ok", <<Rec(AllRaw[i], mt)>>, NoDisc))
+  \/ \E i \in DOMAIN AllRaw, mt \in Matches, ch \in Chains, lk \in Wire :
+       in = H1(Row(ch, TRUE, lk, <<Rec(AllRaw[i], mt)>>, NoDisc, (i + ChainIdx(ch)) % 9))
+  \/ \E i \in DOMAIN AllRaw, mt \in Matches, lk \in Wire :
+       in = H1(Row("leaf_int", FALSE, lk, <<Rec(AllRaw[i], mt)>>, NoDisc, i % 9))
 
 InLookup ==
-  \E ch \in {"leaf_int_root", "wrongname"}, h \in BOOLEAN, lk \in {"notfound", "error"} :
-    in = H1(Row(ch, h, lk, <<>>, NoDisc))
+  \E ch \in {"leaf_int_root", "wrongname"}, h \in BOOLEAN, lk \in {"notfound", "error"}, lv \in 0..8 :
+    in = H1(Row(ch, h, lk, <<>>, NoDisc, lv))
 
 (* discovery sub-machine: address lookup (with its AD bit) and TLSA lookup *)
 DiscA    == {"ad", "noad", "nxdomain", "servfail"}
 DiscTLSA == {"recs_ad", "recs_noad", "nodata", "nxdomain", "servfail"}
 InDisc ==
-  \E h \in BOOLEAN, mt \in {"leaf", "none"}, a \in DiscA, t \in DiscTLSA :
-    in = H1(Row("leaf_int", h, "disc", <<[u |-> 3, s |-> 1, m |-> 1, match |-> mt]>>, [a |-> a, tlsa |-> t]))
+  \E h \in BOOLEAN, mt \in {"leaf", "none"}, a \in DiscA, t \in DiscTLSA, lv \in 0..8 :
+    in = H1(Row("leaf_int", h, "disc", <<[u |-> 3, s |-> 1, m |-> 1, match |-> mt]>>, [a |-> a, tlsa |-> t], lv))
+
+EE(mt) == [u |-> 3, s |-> 1, m |-> 1, match |-> mt]
+TA(mt) == [u |-> 2, s |-> 0, m |-> 1, match |-> mt]
+(* every incoming (MX level, TLS level) against the decisive record situations *)
+LevelRecs == {EE("leaf"), EE("none"), TA("int"), TA("root"), TA("none"),
+              [u |-> 1, s |-> 0, m |-> 1, match |-> "leaf"], [u |-> 4, s |-> 0, m |-> 1, match |-> "leaf"]}
+InLevels ==
+  \/ \E lv \in 0..8, lk \in Wire, ch \in Chains, rec \in LevelRecs :
+       in = H1(Row(ch, TRUE, lk, <<rec>>, NoDisc, lv))
+  \/ \E lv \in 0..8, lk \in Wire, r1 \in LevelRecs, r2 \in LevelRecs :
+       in = H1(Row("leaf_int", TRUE, lk, <<r1, r2>>, NoDisc, lv))
 
 (* histories: 2 or 3 MX candidates served by the same delivery object, each *)
 (* one of these situations (its own records, chain, DNS answers)            *)
-DRow(ch, hs, rec, a, t) == Row(ch, hs, "disc", <<rec>>, [a |-> a, tlsa |-> t])
-EE(mt) == [u |-> 3, s |-> 1, m |-> 1, match |-> mt]
-TA(mt) == [u |-> 2, s |-> 0, m |-> 1, match |-> mt]
-Scen == << DRow("leaf_int", TRUE, EE("leaf"), "ad", "recs_ad"),            \* authenticated (EE)
-           DRow("leaf_int", TRUE, EE("none"), "ad", "recs_ad"),            \* usable, no match: refused
-           DRow("leaf_int", TRUE, EE("leaf"), "ad", "nodata"),             \* no records
-           DRow("leaf_int_root", TRUE, TA("root"), "ad", "recs_ad"),       \* authenticated (TA)
-           DRow("wrongname", TRUE, TA("int"), "ad", "recs_ad"),            \* TA, wrong name: refused
-           DRow("leaf_int", TRUE, EE("leaf"), "servfail", "recs_ad"),      \* lookup error
-           DRow("leaf_int", FALSE, EE("leaf"), "ad", "recs_ad"),           \* records, no TLS: refused
-           DRow("leaf_int", TRUE, EE("leaf"), "noad", "recs_ad"),          \* insecure zone
-           DRow("leaf_int", TRUE, [u |-> 1, s |-> 0, m |-> 1, match |-> "leaf"], "ad", "recs_ad") >> \* unusable only
+DRow(ch, hs, rec, a, t, lv) == Row(ch, hs, "disc", <<rec>>, [a |-> a, tlsa |-> t], lv)
+Scen == << DRow("leaf_int", TRUE, EE("leaf"), "ad", "recs_ad", 0),            \* authenticated (EE)
+           DRow("leaf_int", TRUE, EE("none"), "ad", "recs_ad", 7),            \* usable, no match: refused
+           DRow("leaf_int", TRUE, EE("leaf"), "ad", "nodata", 4),             \* no records
+           DRow("leaf_int_root", TRUE, TA("root"), "ad", "recs_ad", 8),       \* authenticated (TA)
+           DRow("wrongname", TRUE, TA("int"), "ad", "recs_ad", 7),            \* TA, wrong name: refused
+           DRow("leaf_int", TRUE, EE("leaf"), "servfail", "recs_ad", 7),      \* lookup error
+           DRow("leaf_int", FALSE, EE("leaf"), "ad", "recs_ad", 1),           \* records, no TLS: refused
+           DRow("leaf_int", TRUE, EE("leaf"), "noad", "recs_ad", 5),          \* insecure zone
+           DRow("leaf_int", TRUE, [u |-> 1, s |-> 0, m |-> 1, match |-> "leaf"], "ad", "recs_ad", 7) >> \* unusable only
 InHistory ==
   \/ \E n \in 2..3 : \E sc \in [1..n -> DOMAIN Scen] :
        in = [mode |-> "seq", rounds |-> [k \in 1..n |-> Scen[sc[k]]]]
@@ -164,7 +191,8 @@ InHistory ==
 (* what a discovery amounts to (RFC 7672 2.1.1, 2.2): a failed lookup is an  *)
 (* error, a secure denial or an insecure answer is "no records"              *)
 Eff(i) ==
-  IF i.lookup # "disc" THEN i
+  IF i.lookup = "wire" THEN [i EXCEPT !.lookup = "ok"]     \* a signed RRset, delivered as published
+  ELSE IF i.lookup # "disc" THEN i
   ELSE LET a == i.disc.a  t == i.disc.tlsa IN
        [i EXCEPT !.lookup = IF a = "servfail" \/ (a = "ad" /\ t = "servfail") THEN "error"
                             ELSE IF a = "nxdomain" THEN "notfound" ELSE "ok",
@@ -253,7 +281,7 @@ Observed(h) == IF h.mode = "overlap" THEN {Len(h.rounds)} ELSE DOMAIN h.rounds
 ViolH(h, o) == UNION {Viol(h.rounds[k], o[k]) : k \in Observed(h)}
 PropH(h, o) == ViolH(h, o) = {}
 
-Init == InMulti \/ InSingle \/ InLookup \/ InDisc \/ InHistory
+Init == InMulti \/ InSingle \/ InLookup \/ InDisc \/ InLevels \/ InHistory
 Next == FALSE /\ UNCHANGED in      \* one state per input (run with CHECK_DEADLOCK FALSE)
 Spec == Init /\ [][Next]_vars
 
@@ -270,7 +298,8 @@ RuleExact ==
 TypeOK == /\ in.mode \in {"seq", "overlap"} /\ Len(in.rounds) \in 1..3
           /\ \A k \in DOMAIN in.rounds :
                LET r == in.rounds[k] IN
-                 /\ r.chain \in Chains /\ r.hs \in BOOLEAN /\ r.lookup \in {"ok", "notfound", "error", "disc"}
+                 /\ r.chain \in Chains /\ r.hs \in BOOLEAN /\ r.lookup \in {"ok", "wire", "notfound", "error", "disc"}
+                 /\ r.mxl \in Range(MxSeq) /\ r.tll \in Range(TlSeq) /\ (~r.hs => r.tll = "none")
                  /\ Len(r.recs) <= MaxRecs
                  /\ \A x \in RecSet(r) : x.match \in Matches
                  /\ (Len(in.rounds) > 1 => r.lookup = "disc")   \* several MXs: always the real PrepareConn
